@@ -13,6 +13,12 @@ database type and value.
 -/
 import EngineModel.Spec.Txn
 import Proofs.Txn
+import Proofs.Stmts
+import Proofs.CratesV1Stmts
+import Proofs.CratesV1Coroll
+import Proofs.V2CratesStmts
+import Proofs.TracksV2Stmts
+import Proofs.TracksV1Stmts
 
 namespace EngineModel.Properties.C14
 open EngineModel.Spec.Txn EngineModel.Proofs.Txn
@@ -165,6 +171,178 @@ theorem C14_fault_on_commit (f : α → α) (auto : Bool) (db : α) :
   cases auto <;>
     simp [call, exec, Cmd.kind, faultable, unwind, Conn.idle, stepStmt, scopesAfter, Outcome.cons]
 
+/-! ### the failing statement is reported; the skeleton -/
+
+/-- **"reports it by throwing"**: whenever the fault position lies inside the call — `k` is below the number of
+faultable statements the call issues — the call raises, whatever its statements are. -/
+theorem C14_fault_is_reported (cs : List (Cmd α)) (k : Nat) (auto : Bool) (db : α)
+    (hk : k < countFaultable (cs.map Cmd.kind)) : (call (some k) auto cs db).raised = true :=
+  EngineModel.Proofs.Stmts.raised_of_fault cs k auto db hk
+
+/-- … and with an atomic shape the database is then exactly the prior one: all or nothing at every position. -/
+theorem C14_all_or_nothing (cs : List (Cmd α)) (h : atomicShape (cs.map Cmd.kind) = true) (k : Nat) (auto : Bool) (db : α)
+    (hk : k < countFaultable (cs.map Cmd.kind)) :
+    (call (some k) auto cs db).raised = true ∧ (call (some k) auto cs db).conn = Conn.idle db :=
+  EngineModel.Proofs.Stmts.all_or_nothing cs h k auto db hk
+
+open EngineModel.Spec.Stmts in
+/-- The *skeleton* of a statement-kind sequence (reads dropped, the writes of one scope counted once) — what the
+tie compares between a model operation and the statements of the real call — decides the monitor. -/
+theorem C14_skeleton_decides (ks : List CmdKind) : atomicShape (skeleton ks) = atomicShape ks :=
+  EngineModel.Proofs.Stmts.atomicShape_skeleton ks
+
+/-! ### concrete operations: schema-1.x crates (`Api.CratesV1`, every version)
+
+`CratesV1.stmts s db op` is the statement program of the call on prior tables `db` (`Api/CratesV1Stmts.lean`):
+BEGIN / COMMIT of its `sqlite_transaction` scope, one `write` per INSERT / UPDATE / DELETE — loops statement by
+statement, `update_path` in the order of its recursion. -/
+section cratesV1
+open EngineModel.Api EngineModel.Pure.Detect EngineModel.Spec.Stmts
+
+/-- The program *is* the modelled call: run without fault it completes and makes exactly the tables that
+`CratesV1.step` returns durable — for every schema, prior state and operation whose call returns normally. -/
+theorem C14_crates_v1_program (s : Schema) (db : CratesV1.Db) (op : CratesV1.Op) (out : CratesV1.Out) (auto : Bool)
+    (h : (CratesV1.step s db op).2 = .ok out) :
+    (call none auto (CratesV1.stmts s db op) db).raised = false ∧
+    (call none auto (CratesV1.stmts s db op) db).conn = Conn.idle (CratesV1.step s db op).1 :=
+  EngineModel.Proofs.CratesV1Stmts.stmts_run s db op out auto h
+
+/-- `shapeOf` of every 1.x crate operation is an atomic shape, on every schema and prior state. -/
+theorem C14_crates_v1_shape (s : Schema) (op : CratesV1.Op) (db : CratesV1.Db) :
+    atomicShape (CratesV1.shapeOf s op db) = true :=
+  EngineModel.Proofs.CratesV1Stmts.stmts_atomic s db op
+
+/-- … and its skeleton is fixed per operation: one autocommit DELETE for `crate::remove_track` /
+`clear_tracks`, one scope for everything else (the tie requires the observed skeleton to be this one). -/
+theorem C14_crates_v1_skeleton (s : Schema) (op : CratesV1.Op) (db : CratesV1.Db) :
+    skeleton (CratesV1.shapeOf s op db) = (CratesV1.skeletonOf op).kinds :=
+  EngineModel.Proofs.CratesV1Stmts.stmts_skeleton s db op
+
+/-- **All or nothing, concretely**: a fault injected at *any* statement position `k` of *any* 1.x crate call —
+BEGIN, COMMIT, any INSERT / UPDATE / DELETE of any loop iteration — raises and leaves the tables exactly as they
+were, with no transaction open. -/
+theorem C14_crates_v1_all_or_nothing (s : Schema) (db : CratesV1.Db) (op : CratesV1.Op) (k : Nat) (auto : Bool)
+    (hk : k < countFaultable (CratesV1.shapeOf s op db)) :
+    (call (some k) auto (CratesV1.stmts s db op) db).raised = true ∧
+    (call (some k) auto (CratesV1.stmts s db op) db).conn = Conn.idle db :=
+  C14_all_or_nothing _ (C14_crates_v1_shape s op db) k auto db hk
+
+/-- A 1.x crate call that throws *by itself* (validation, a constraint) leaves every table as it was
+(`Proofs/CratesV1Coroll.step_throw_unchanged`, on every state that satisfies the model's invariant). -/
+theorem C14_crates_v1_self_throw (s : Schema) (db : CratesV1.Db) (hinv : CratesV1.Inv db)
+    (op : CratesV1.Op) (hr : (CratesV1.step s db op).2.isOk = false) : (CratesV1.step s db op).1 = db :=
+  CratesV1.step_throw_unchanged s hinv op hr
+
+end cratesV1
+
+/-! ### concrete operations: schema-2.x crates and memberships (`Db.V2`) -/
+section cratesV2
+open EngineModel.Db EngineModel.Spec.Stmts
+
+theorem C14_crates_v2_program (d : V2.Db) (op : V2.Op) (out : V2.Out) (auto : Bool) (h : (V2.step d op).2 = .ok out) :
+    (call none auto (V2.stmts d op) d).raised = false ∧
+    (call none auto (V2.stmts d op) d).conn = Conn.idle (V2.step d op).1 :=
+  EngineModel.Proofs.V2CratesStmts.stmts_run d op out auto h
+
+theorem C14_crates_v2_shape (op : V2.Op) (d : V2.Db) : atomicShape (V2.shapeOf op d) = true :=
+  EngineModel.Proofs.V2CratesStmts.stmts_atomic d op
+
+/-- the skeleton of a successful call is one of the operation's allowed skeletons (`add_track` of a member and
+`crate::remove_track` of a non-member issue no writing statement at all) -/
+theorem C14_crates_v2_skeleton (op : V2.Op) (d : V2.Db) (out : V2.Out) (h : (V2.step d op).2 = .ok out) :
+    ∃ k ∈ V2.allowed op, skeleton (V2.shapeOf op d) = k.kinds :=
+  EngineModel.Proofs.V2CratesStmts.stmts_skeleton d op out h
+
+theorem C14_crates_v2_all_or_nothing (d : V2.Db) (op : V2.Op) (k : Nat) (auto : Bool)
+    (hk : k < countFaultable (V2.shapeOf op d)) :
+    (call (some k) auto (V2.stmts d op) d).raised = true ∧ (call (some k) auto (V2.stmts d op) d).conn = Conn.idle d :=
+  C14_all_or_nothing _ (C14_crates_v2_shape op d) k auto d hk
+
+end cratesV2
+
+/-! ### concrete operations: schema-2.x tracks (the statement-level table model `TracksV2/Table.lean`)
+
+`TracksV2.topStmts` (`TracksV2/Stmts.lean`): `create_track`, `track::update` and the single-UPDATE setters are one
+write; `set_bpm`, `set_key`, `set_relative_path`, `set_sample_count`, `set_sample_rate` are the scope of their
+two or three UPDATEs in the order of the C++; `remove_track` is the scope of its DELETE. -/
+section tracksV2
+open EngineModel.TracksV2 EngineModel.Spec.Stmts
+
+theorem C14_tracks_v2_program (ops : FOps) (s : TracksV2.Schema) (db : TDb) (op : TOp) (n : Nat) (auto : Bool)
+    (h : (db.step ops s op).2 = .ok n) :
+    (call none auto (topStmts ops s db op) db).raised = false ∧
+    (call none auto (topStmts ops s db op) db).conn = Conn.idle (db.step ops s op).1 :=
+  topStmts_run ops s db op n auto h
+
+theorem C14_tracks_v2_shape (ops : FOps) (s : TracksV2.Schema) (op : TOp) (db : TDb) :
+    atomicShape (topShapeOf ops s op db) = true :=
+  topStmts_atomic ops s db op
+
+theorem C14_tracks_v2_skeleton (ops : FOps) (s : TracksV2.Schema) (op : TOp) (db : TDb) (n : Nat)
+    (h : (db.step ops s op).2 = .ok n) : skeleton (topShapeOf ops s op db) = op.skeleton.kinds :=
+  topStmts_skeleton ops s db op n h
+
+theorem C14_tracks_v2_all_or_nothing (ops : FOps) (s : TracksV2.Schema) (db : TDb) (op : TOp) (k : Nat) (auto : Bool)
+    (hk : k < countFaultable (topShapeOf ops s op db)) :
+    (call (some k) auto (topStmts ops s db op) db).raised = true ∧
+    (call (some k) auto (topStmts ops s db op) db).conn = Conn.idle db :=
+  C14_all_or_nothing _ (C14_tracks_v2_shape ops s op db) k auto db hk
+
+/-- the table of the counterexample below: one track, every column at its default -/
+def cxOps : FOps := ⟨fun _ => 0, fun _ => 0, fun _ _ => 0⟩
+def cxTable : TDb := ⟨[1], 1, [⟨1, [1], 1, default⟩]⟩
+
+/-- **The scope is needed** (the defect repaired by dbbedfa, DESIGN §7): the two UPDATEs of 2.x `set_bpm` issued
+*without* their `sqlite_transaction` are not an atomic shape, and a fault on the second one raises with
+`bpmAnalyzed` already written — a partial update.  Replayed on the real library: corpus/C14/v2_set_bpm.txt. -/
+theorem C14_set_bpm_unscoped_counterexample :
+    atomicShape ((setBody cxOps cxTable 1 (.bpm (some 0x405e000000000000))).map Cmd.kind) = false ∧
+    (call (some 1) false (setBody cxOps cxTable 1 (.bpm (some 0x405e000000000000))) cxTable).raised = true ∧
+    (call (some 1) false (setBody cxOps cxTable 1 (.bpm (some 0x405e000000000000))) cxTable).conn.committed ≠ cxTable ∧
+    (call (some 1) false (topStmts cxOps .s2_21_2 cxTable (.set 1 (.bpm (some 0x405e000000000000)))) cxTable).conn.committed
+      = cxTable := by
+  decide +kernel
+
+end tracksV2
+
+open EngineModel.Db EngineModel.Spec.Stmts in
+/-- Likewise for 2.x `database::remove_track` (the defect repaired by 516c689): its DELETEs — the membership, then
+the track — outside a scope: a fault on the second raises with the membership already gone.
+Replayed on the real library: corpus/C14/v2_remove_track.txt. -/
+theorem C14_remove_track_unscoped_counterexample :
+    let d := V2.run V2.Db.empty [.createRoot [65], .createTrack, .addTrack 1 1]
+    atomicShape ((V2.body d (.removeTrack 1)).map Cmd.kind) = false ∧
+    (call (some 1) false (V2.body d (.removeTrack 1)) d).raised = true ∧
+    (call (some 1) false (V2.body d (.removeTrack 1)) d).conn.committed ≠ d ∧
+    (call (some 1) false (V2.stmts d (.removeTrack 1)) d).conn.committed = d := by
+  decide +kernel
+
+/-! ### concrete operations: schema-1.x tracks (`TracksV1/Accessors.lean`, call granularity)
+
+The 1.x track model has no statement level: a call is one write (the joint effect of its statements) inside the
+scope engine_track_impl.cpp gives it.  Lean carries the scope table per operation (`TracksV1.Field.scoped`), which
+the tie checks against the skeleton of every real call. -/
+section tracksV1
+open EngineModel.TracksV1 EngineModel.Spec.Stmts
+
+theorem C14_tracks_v1_program (o : EngineModel.TracksV1.Fl.FOps) (d d' : TracksV1.Db) (op : TracksV1.TOp) (auto : Bool)
+    (h : TracksV1.topStep o d op = .ok d') :
+    (call none auto (TracksV1.topStmts o op) d).raised = false ∧
+    (call none auto (TracksV1.topStmts o op) d).conn = Conn.idle d' :=
+  TracksV1.topStmts_run o d d' op auto h
+
+theorem C14_tracks_v1_shape (o : EngineModel.TracksV1.Fl.FOps) (op : TracksV1.TOp) :
+    atomicShape (TracksV1.topShapeOf o op) = true ∧ skeleton (TracksV1.topShapeOf o op) = op.skeleton.kinds :=
+  ⟨TracksV1.topStmts_atomic o op, TracksV1.topStmts_skeleton o op⟩
+
+theorem C14_tracks_v1_all_or_nothing (o : EngineModel.TracksV1.Fl.FOps) (d : TracksV1.Db) (op : TracksV1.TOp) (k : Nat) (auto : Bool)
+    (hk : k < countFaultable (TracksV1.topShapeOf o op)) :
+    (call (some k) auto (TracksV1.topStmts o op) d).raised = true ∧
+    (call (some k) auto (TracksV1.topStmts o op) d).conn = Conn.idle d :=
+  C14_all_or_nothing _ (C14_tracks_v1_shape o op).1 k auto d hk
+
+end tracksV1
+
 /-! ### non-vacuity -/
 
 -- shapes the library is observed to issue
@@ -190,5 +368,23 @@ example : (call (some 2) false (incCmds [.begin, .write, .write, .commit]) 0).ra
 example : (call none true [.begin, .write (fun n => some (n + 1)), .write (fun _ => none), .commit] (7 : Nat)).conn
     = Conn.idle 7 := by
   simp [call, exec, Cmd.kind, faultable, unwind, Conn.idle, stepStmt, scopesAfter, Outcome.cons]
+
+-- concrete operations: the hypotheses are satisfiable and the programs are not trivial
+open EngineModel.Api EngineModel.Pure.Detect in
+example : let db := CratesV1.run .schema_1_18_0_os CratesV1.Db.empty [.createRoot [65], .createSub 1 [66], .createSub 2 [67]]
+    (CratesV1.step .schema_1_18_0_os db (.rename 1 [68])).2 = .ok .unit ∧
+    countFaultable (CratesV1.shapeOf .schema_1_18_0_os (.rename 1 [68]) db) = 5 ∧     -- BEGIN, 3 UPDATEs, COMMIT
+    countFaultable (CratesV1.shapeOf .schema_1_18_0_os (.removeCrate 1) db) = 14 := by  -- BEGIN, 3 x 4 DELETEs, COMMIT
+  decide +kernel
+open EngineModel.Db in
+example : let d := V2.run V2.Db.empty [.createRoot [65], .createSub 1 [66], .createTrack, .addTrack 2 1]
+    (V2.step d (.removeCrate 1)).2 = .ok none ∧ countFaultable (V2.shapeOf (.removeCrate 1) d) = 6 ∧
+    V2.shapeOf (.addTrack 2 1) d = [.read, .read, .read] := by
+  decide +kernel
+
+open EngineModel.TracksV2 in
+example : countFaultable (topShapeOf cxOps .s2_21_2 (.set 1 (.relativePath [97, 46, 109, 112, 51])) cxTable) = 5 ∧
+    (cxTable.step cxOps .s2_21_2 (.set 1 (.relativePath [97, 46, 109, 112, 51]))).2 = .ok 0 := by
+  decide +kernel
 
 end EngineModel.Properties.C14
